@@ -18,11 +18,13 @@ for p in props:
       "level_claimed":{"category":c.get("category","proof"),"text":c["text"],"design_ref":c.get("design_ref","DESIGN.md §4 "+p['id'])},
       "level_note":c["note"],
       "technique":c.get("technique","contract-based deductive verification: VCs generated over go/ssa of the real functions, discharged by z3/cvc5")})
+import os
+nar=json.load(open('/verif/na_reasons.json')) if os.path.exists('/verif/na_reasons.json') else {}
 na=[]
 for p in props:
     c=claims.get(p['id'])
     if c and c.get('claimed'): continue
-    na.append({"property_id":p['id'],"reason":(c or {}).get("reason","designed (DESIGN.md §4) but not built")})
+    na.append({"property_id":p['id'],"reason":((c or {}).get("reason") or nar.get(p['id']) or "no contract set within reach of this technique was completed for it (DESIGN.md §5)")})
 m={"version":1,"setup_cmd":"./setup.sh",
  "hooks":{"guard":"verif","enable":"contract files <pkg>/contracts_verif.go carry the build tag verif and contain only comments; gocv loads /repo with -tags verif and reads them","baseline_off_cmd":"cd /repo && go test -vet=off -count=1 -timeout 25m ./...","source_commits":hooks["source_commits"],"add_only":True},
  "engines":[{"name":"gocv","path":"/verif/gocv","serves_properties":[c["property_id"] for c in checks],"kind_free_text":"VC generator (weakest-precondition style symbolic execution over go/ssa NaiveForm of /repo's working tree); contracts in //@ comments of <pkg>/contracts_verif.go; obligations raced on z3 4.8.12, z3 5.1.0, cvc5 1.0.3"}],
